@@ -38,7 +38,7 @@ def mat(v, form):
 
 def vec_form(rng, allow_list=True, maxval=0, n=2):
     forms = ['array:' + d for d in VEC_DTYPES if not (d == 'i2' and maxval > 32767)
-             and not (d == 'u8' and n == 1)]      # a single unsigned 64-bit value: outside the domain (report, g)
+             and not (d == 'u8' and n == 1)]      # single-element uint64: int32 + uint64 -> float64, outside the domain (report, g)
     if allow_list:
         forms += ['list', 'list']
     return rng.choice(forms)
@@ -326,7 +326,7 @@ class C16(Check):
         'optional files (spZbest, photoPlate) exist for all plate-MJDs of a tree or for none; plate numbers 1-9999, MJD < 65536',
         'fiber=None: every MJD of a plate has the same fibre count; several plates only with mjd=None and distinct plates, '
         'and then only the multiset of rows and the row coherence across arrays is asserted (the property defines no order)',
-        'a request made of a single unsigned 64-bit fibre (numpy uint64 scalar / length-1 uint64 array) is outside the domain',
+        'single-element unsigned 64-bit request components (numpy uint64 scalar, length-1 uint64 vector) are outside the domain',
         'align=True and znum= are outside the property',
         'width of the returned images may exceed the longest requested spectrum as long as the excess is zero',
         'loglam beyond the length of a shorter spectrum may be 0 (padding) or COEFF0+COEFF1*pixel',
